@@ -22,6 +22,7 @@ import (
 	"github.com/attestantio/vouch/util"
 	"github.com/attestantio/vouch/verifmc/mc"
 	"github.com/attestantio/vouch/verifmc/msync"
+	"github.com/attestantio/vouch/verifmc/mtime"
 	"github.com/prysmaticlabs/go-bitfield"
 	"github.com/rs/zerolog"
 )
@@ -41,24 +42,47 @@ type c08Beh struct {
 var c08Lats = []int{0, 1, 2, 3, -1} // seconds; -1 = hangs forever
 
 type c08Node struct {
-	beh   c08Beh
-	lat   int
-	got   []any // payload elements received
-	calls int
-	endAt []int64
+	idx         int
+	beh         c08Beh
+	lat         int
+	got         []any // payload elements received
+	calls       int
+	endAt       []int64
+	versionDown bool // the node's version endpoint does not answer at the moment
+	aborted     int  // requests abandoned because the request context was cancelled
 }
 
+// The node is a client of a beacon node with an address, like the HTTP client vouch uses.
+func (n *c08Node) Name() string    { return "c08" }
+func (n *c08Node) Address() string { return fmt.Sprintf("http://node%d:5052", n.idx) }
+func (n *c08Node) IsActive() bool  { return true }
+func (n *c08Node) IsSynced() bool  { return true }
+
 func (n *c08Node) NodeVersion(_ context.Context, _ *api.NodeVersionOpts) (*api.Response[string], error) {
+	if n.versionDown {
+		return nil, errors.New("version endpoint unavailable")
+	}
 	return &api.Response[string]{Data: n.beh.client + "/v1.0.0", Metadata: map[string]any{}}, nil
 }
 
-func (n *c08Node) handle(items []any) error {
+// handle serves one request: like an HTTP client it gives up when the request context is cancelled.
+func (n *c08Node) handle(ctx context.Context, items []any) error {
 	n.calls++
 	if c08Lats[n.lat] < 0 {
 		mc.Block(0)
 		return errors.New("unreachable")
 	}
-	mc.Sleep(int64(c08Lats[n.lat]) * int64(time.Second))
+	if ctx.Err() != nil {
+		n.aborted++
+		return ctx.Err()
+	}
+	if lat := c08Lats[n.lat]; lat > 0 {
+		t := mtime.After(time.Duration(lat) * time.Second)
+		if sel := mc.Select(false, mc.RecvCase(ctx.Done()), mc.RecvCase(t)); sel.Index == 0 {
+			n.aborted++
+			return ctx.Err()
+		}
+	}
 	n.got = append(n.got, items...)
 	n.endAt = append(n.endAt, mc.Now())
 	if n.beh.errText != "" {
@@ -75,29 +99,29 @@ func anys[T any](xs []T) []any {
 	return out
 }
 
-func (n *c08Node) SubmitAttestations(_ context.Context, a []*phase0.Attestation) error {
-	return n.handle(anys(a))
+func (n *c08Node) SubmitAttestations(ctx context.Context, a []*phase0.Attestation) error {
+	return n.handle(ctx, anys(a))
 }
-func (n *c08Node) SubmitProposal(_ context.Context, o *api.SubmitProposalOpts) error {
-	return n.handle([]any{o.Proposal})
+func (n *c08Node) SubmitProposal(ctx context.Context, o *api.SubmitProposalOpts) error {
+	return n.handle(ctx, []any{o.Proposal})
 }
-func (n *c08Node) SubmitAggregateAttestations(_ context.Context, a []*phase0.SignedAggregateAndProof) error {
-	return n.handle(anys(a))
+func (n *c08Node) SubmitAggregateAttestations(ctx context.Context, a []*phase0.SignedAggregateAndProof) error {
+	return n.handle(ctx, anys(a))
 }
-func (n *c08Node) SubmitProposalPreparations(_ context.Context, a []*apiv1.ProposalPreparation) error {
-	return n.handle(anys(a))
+func (n *c08Node) SubmitProposalPreparations(ctx context.Context, a []*apiv1.ProposalPreparation) error {
+	return n.handle(ctx, anys(a))
 }
-func (n *c08Node) SubmitBeaconCommitteeSubscriptions(_ context.Context, a []*apiv1.BeaconCommitteeSubscription) error {
-	return n.handle(anys(a))
+func (n *c08Node) SubmitBeaconCommitteeSubscriptions(ctx context.Context, a []*apiv1.BeaconCommitteeSubscription) error {
+	return n.handle(ctx, anys(a))
 }
-func (n *c08Node) SubmitSyncCommitteeMessages(_ context.Context, a []*altair.SyncCommitteeMessage) error {
-	return n.handle(anys(a))
+func (n *c08Node) SubmitSyncCommitteeMessages(ctx context.Context, a []*altair.SyncCommitteeMessage) error {
+	return n.handle(ctx, anys(a))
 }
-func (n *c08Node) SubmitSyncCommitteeSubscriptions(_ context.Context, a []*apiv1.SyncCommitteeSubscription) error {
-	return n.handle(anys(a))
+func (n *c08Node) SubmitSyncCommitteeSubscriptions(ctx context.Context, a []*apiv1.SyncCommitteeSubscription) error {
+	return n.handle(ctx, anys(a))
 }
-func (n *c08Node) SubmitSyncCommitteeContributions(_ context.Context, a []*altair.SignedContributionAndProof) error {
-	return n.handle(anys(a))
+func (n *c08Node) SubmitSyncCommitteeContributions(ctx context.Context, a []*altair.SignedContributionAndProof) error {
+	return n.handle(ctx, anys(a))
 }
 
 const (
@@ -296,6 +320,7 @@ func multiSvc(nodes []*c08Node, conc int) *multinode.Service {
 	ss := map[string]eth2client.SyncCommitteeSubscriptionsSubmitter{}
 	sc := map[string]eth2client.SyncCommitteeContributionsSubmitter{}
 	for i, n := range nodes {
+		n.idx = i
 		k := fmt.Sprintf("n%d", i)
 		ps[k], as[k], gs[k], pp[k], bs[k], sm[k], ss[k], sc[k] = n, n, n, n, n, n, n, n
 	}
@@ -378,6 +403,80 @@ func c08Units(tier string) []hx.Unit {
 			}
 			units = append(units, u)
 		}
+	}
+	// histories: two (thorough three) submissions through one service instance to one node whose version
+	// endpoint may be down at the time of either: what a submission reports depends on the node's answer
+	// to it and on what the node says it is then, not on an earlier submission
+	for ki := range kinds {
+		k := kinds[ki]
+		var tol *c08Beh
+		for i := range k.behs {
+			if k.behs[i].tolerated && tol == nil {
+				tol = &k.behs[i]
+			}
+		}
+		if tol == nil {
+			continue
+		}
+		steps := 2
+		if tier == "thorough" {
+			steps = 3
+		}
+		type hstep struct {
+			down bool
+			beh  c08Beh
+			err  error
+		}
+		var hist []hstep
+		doneH := false
+		u := hx.Unit{Name: "C08/history/" + k.name, Cfg: mc.Config{Fixed: true, Horizon: int64(60 * time.Second)}}
+		u.Body = func() {
+			hist, doneH = nil, false
+			nd := &c08Node{}
+			svc := multiSvc([]*c08Node{nd}, 2)
+			behs := []c08Beh{c08Basic[0], *tol, c08Basic[1]}
+			for i := 0; i < steps; i++ {
+				h := hstep{down: mc.Choose(2) == 1, beh: behs[mc.Choose(len(behs))]}
+				nd.versionDown, nd.beh = h.down, h.beh
+				_, h.err = k.multi(svc, context.Background(), 2)
+				hist = append(hist, h)
+			}
+			doneH = true
+		}
+		u.Check = func(r *mc.Result) mc.Verdict {
+			var d []string
+			for _, h := range hist {
+				ver := "version-up"
+				if h.down {
+					ver = "version-down"
+				}
+				d = append(d, fmt.Sprintf("%s/%s->err=%v", h.beh.name, ver, h.err != nil))
+			}
+			v := mc.Verdict{Outcome: "history " + strings.Join(d, " "), Nontrivial: true}
+			v.Sample = k.name + " submissions to one node through one service: " + strings.Join(d, ", then ")
+			switch {
+			case r.Panic != "":
+				v.Violation, v.Key = v.Sample+": panic: "+firstLine(r.Panic), "C08/"+k.name+"/panic"
+			case !doneH:
+				v.Violation, v.Key = v.Sample+": a submission never returned", "C08/"+k.name+"/never-returned"
+			}
+			for i, h := range hist {
+				if v.Violation != "" {
+					break
+				}
+				switch {
+				case h.beh.errText == "" && h.err != nil:
+					v.Violation, v.Key = fmt.Sprintf("%s: submission %d was accepted by the node but reported as failed", v.Sample, i+1), "C08/"+k.name+"/failure-despite-acceptance"
+				case h.beh.errText != "" && !h.beh.tolerated && h.err == nil:
+					v.Violation, v.Key = fmt.Sprintf("%s: submission %d was rejected by the node but reported as successful", v.Sample, i+1), "C08/"+k.name+"/success-without-acceptance"
+				case h.beh.tolerated && !h.down && h.err != nil:
+					// with the version endpoint down the client cannot be identified and either report is admissible
+					v.Violation, v.Key = fmt.Sprintf("%s: submission %d was rejected only for a reason tolerated from %s, which the node reported itself to be, but was reported as failed", v.Sample, i+1, h.beh.client), "C08/"+k.name+"/tolerated-rejection-reported-as-failure"
+				}
+			}
+			return v
+		}
+		units = append(units, u)
 	}
 	// Scatter: extents cover the input exactly once, for every (items, concurrency)
 	{
@@ -499,6 +598,12 @@ func c08Check(k *c08Kind, st *c08State, r *mc.Result) mc.Verdict {
 		return fail("failure-despite-acceptance", "reported failure although a node accepted (or tolerably rejected) within the timeout")
 	}
 	// delivery: every node that is not starved by the semaphore proviso received the payload exactly once
+	serial := int64(0)
+	for _, n := range st.nodes {
+		if l := c08Lats[n.lat]; l > 0 {
+			serial += int64(l) * int64(time.Second)
+		}
+	}
 	if enough || !hang {
 		for i, n := range st.nodes {
 			if c08Lats[n.lat] < 0 {
@@ -507,8 +612,25 @@ func c08Check(k *c08Kind, st *c08State, r *mc.Result) mc.Verdict {
 				}
 				continue
 			}
+			// a node that would answer only at or after the timeout may have had its request abandoned by
+			// then (it was offered the submission); one that answers before the timeout must have received
+			// everything, whatever the other nodes did and however early the call returned
+			at := int64(c08Lats[n.lat]) * int64(time.Second)
+			if !enough {
+				// with fewer slots than nodes a request may have to queue behind the others
+				at = serial
+			}
+			if at >= timeout {
+				if n.calls == 0 {
+					return fail("node-not-offered", fmt.Sprintf("node %d was never offered the submission", i))
+				}
+				if len(n.got) > 0 && !sameMultiset(n.got, st.payload) {
+					return fail("payload-not-delivered-exactly-once", fmt.Sprintf("node %d received %d of %d payload elements", i, len(n.got), len(st.payload)))
+				}
+				continue
+			}
 			if !sameMultiset(n.got, st.payload) {
-				return fail("payload-not-delivered-exactly-once", fmt.Sprintf("node %d received %d of %d payload elements", i, len(n.got), len(st.payload)))
+				return fail("payload-not-delivered-exactly-once", fmt.Sprintf("node %d received %d of %d payload elements (%d requests abandoned on a cancelled context)", i, len(n.got), len(st.payload), n.aborted))
 			}
 		}
 	}
@@ -519,11 +641,11 @@ func init() {
 	hx.Register(&hx.Prop{
 		ID:    "C08",
 		Title: "A submission reaches every configured node and succeeds iff one accepts",
-		Rule: "for each of the 8 submission kinds of the multinode submitter and n = 1..2 (thorough 3) scripted nodes: every assignment of behaviour (accept, reject, each client-specific tolerated rejection, error JSON with one real failure / without failure list / with a null failure / non-JSON) x latency (0, <timeout, =timeout, >timeout, hang) per node x payload size {1,3} x process concurrency {1,2,4}, explored with deviation-bounded schedules (bound 0-1); plus the immediate submitter per kind and util.Scatter for all (items<=24, concurrency<=6); " +
+		Rule: "for each of the 8 submission kinds of the multinode submitter and n = 1..2 (thorough 3) scripted nodes: every assignment of behaviour (accept, reject, each client-specific tolerated rejection, error JSON with one real failure / without failure list / with a null failure / non-JSON) x latency (0, <timeout, =timeout, >timeout, hang) per node x payload size {1,3} x process concurrency {1,2,4}, explored with deviation-bounded schedules (bound 0-1); plus, for the kinds with tolerated rejections, every history of 2 (thorough 3) submissions through one service instance to a node whose version endpoint is up or down and which accepts, rejects tolerably or rejects; plus the immediate submitter per kind and util.Scatter for all (items<=24, concurrency<=6); " +
 			"non-trivial = more than one node or a contended scheduling point; distinct = distinct (result, return second) outcomes",
 		Assumptions: []string{
 			"the set of rejections vouch deliberately tolerates is the one in the code's client/kind table (lighthouse known/behind, nimbus unknown target, lighthouse/teku all-duplicate failures)",
-			"a node's calls for chunks of one payload all behave alike",
+			"a node's calls for chunks of one payload all behave alike; nodes abandon a request when its context is cancelled, as an HTTP client does",
 			"acceptance exactly on the timeout instant is admitted both ways; with concurrency below the number of nodes only the 'success implies acceptance' direction is required",
 		},
 		Units:         c08Units,
